@@ -85,4 +85,12 @@ theorem ext_getD {α} (a b : List α) (d : α) (hl : a.length = b.length)
   have := h i h1
   simpa [List.getD_eq_getElem?_getD, List.getElem?_eq_getElem h1, List.getElem?_eq_getElem h2] using this
 
+theorem flatMap_congr' {α β} (l : List α) (f g : α → List β) (h : ∀ x ∈ l, f x = g x) :
+    l.flatMap f = l.flatMap g := by
+  induction l with
+  | nil => rfl
+  | cons a l ih =>
+    simp only [List.flatMap_cons]
+    rw [h a (by simp), ih (fun x hx => h x (by simp [hx]))]
+
 end RtcVerif.C01
